@@ -40,5 +40,7 @@ run C20 cubed/core/plan.py '    # args from primitive_op onwards are omitted' ' 
 run C14 cubed/core/ops.py 'yield read_chunks, int_chunks' 'yield read_chunks, write_chunks' --only _rechunk_plan
 run C14 cubed/core/ops.py 'target_chunks_ = target_chunks if last_stage else write_chunks' 'target_chunks_ = write_chunks' --only _rechunk_plan
 run C13 cubed/core/plan.py 'self._num_tasks \+= primitive_op.num_tasks' 'self._num_tasks = max(self._num_tasks, primitive_op.num_tasks)' --only totals
+run C06 cubed/random.py 'rg = Generator\(Philox\(key=root_seed \+ stream_id\)\)' 'rg = Generator(Philox(key=root_seed))' --only cubed.random
+run C06 cubed/random.py '    root_seed = pyrandom.getrandbits\(128\)\n' '    root_seed = 0\n' --only cubed.random
 echo "selected=$n"
 exit $fail
